@@ -8,6 +8,10 @@
 //! * `Letters` — every class becomes `J<hex>` or `D<hex>` (hex = FNV-1a of the old name, so distinct names stay distinct
 //!   for every class set explored), fields `D<hex>`, methods `J<hex>`: names get short and every descriptor is full of
 //!   the letters that mean "two slots" when they stand alone (`LJ1f…;`, `[LD07…;`).
+//! * `Owner` (only in the pool-limit space, c02/poollimit.rs) — every class `x/Y` becomes `x/Y_O`, a field or method `m` of
+//!   owner `o` becomes `m_<hex of o>`: references to members of different owners that shared one name (and one
+//!   NameAndType entry) no longer do, so the renamed tree needs more Utf8 *and* NameAndType entries than the file it
+//!   was read from.
 
 use anyhow::Result;
 use duke::tree::class::{ObjClassName, ObjClassNameSlice};
@@ -20,8 +24,10 @@ use quill::remapper::{ARemapper, BRemapper};
 pub enum Mode {
 	Grow,
 	Letters,
+	Owner,
 }
 
+/// the renamings applied to every queued case (`Owner` is applied by the pool-limit space only)
 pub const MODES: [Mode; 2] = [Mode::Grow, Mode::Letters];
 
 impl Mode {
@@ -29,10 +35,11 @@ impl Mode {
 		match self {
 			Mode::Grow => "grow",
 			Mode::Letters => "letters",
+			Mode::Owner => "owner",
 		}
 	}
 	pub fn from_name(s: &str) -> Option<Mode> {
-		MODES.into_iter().find(|m| m.name() == s)
+		[Mode::Grow, Mode::Letters, Mode::Owner].into_iter().find(|m| m.name() == s)
 	}
 }
 
@@ -64,6 +71,7 @@ impl ARemapper for Renamer {
 				let h = fnv(old);
 				JavaString::from(format!("{}{:x}", if h & 1 == 0 { 'J' } else { 'D' }, h >> 1))
 			},
+			Mode::Owner => joined(&[old, JavaStr::from_str("_O")]),
 		};
 		// a name the tree type refuses stays as it is
 		Ok(ObjClassName::try_from(new).ok())
@@ -71,23 +79,25 @@ impl ARemapper for Renamer {
 }
 
 impl BRemapper for Renamer {
-	fn map_field_fail(&self, _owner: &ObjClassNameSlice, name: &FieldNameSlice, desc: &FieldDescriptorSlice) -> Result<Option<FieldNameAndDesc>> {
+	fn map_field_fail(&self, owner: &ObjClassNameSlice, name: &FieldNameSlice, desc: &FieldDescriptorSlice) -> Result<Option<FieldNameAndDesc>> {
 		let new = match self.0 {
 			Mode::Grow => joined(&[name.as_inner(), JavaStr::from_str("_renamed")]),
 			Mode::Letters => JavaString::from(format!("D{:x}", fnv(name.as_inner()))),
+			Mode::Owner => joined(&[name.as_inner(), JavaStr::from_str(&format!("_{:x}", fnv(owner.as_inner()) & 0xffff))]),
 		};
 		match FieldName::try_from(new) {
 			Ok(name) => Ok(Some(FieldNameAndDesc { name, desc: self.map_field_desc(desc)? })),
 			Err(_) => Ok(None),
 		}
 	}
-	fn map_method_fail(&self, _owner: &ObjClassNameSlice, name: &MethodNameSlice, desc: &MethodDescriptorSlice) -> Result<Option<MethodNameAndDesc>> {
+	fn map_method_fail(&self, owner: &ObjClassNameSlice, name: &MethodNameSlice, desc: &MethodDescriptorSlice) -> Result<Option<MethodNameAndDesc>> {
 		if name.as_inner().as_bytes().first() == Some(&b'<') {
 			return Ok(None);
 		}
 		let new = match self.0 {
 			Mode::Grow => joined(&[name.as_inner(), JavaStr::from_str("_renamed")]),
 			Mode::Letters => JavaString::from(format!("J{:x}", fnv(name.as_inner()))),
+			Mode::Owner => joined(&[name.as_inner(), JavaStr::from_str(&format!("_{:x}", fnv(owner.as_inner()) & 0xffff))]),
 		};
 		match MethodName::try_from(new) {
 			Ok(name) => Ok(Some(MethodNameAndDesc { name, desc: self.map_method_desc(desc)? })),
